@@ -52,6 +52,8 @@ pub struct Project {
     /// C03: indices of the files that hold the faulty definition(s) when the fault is confined to fragment
     /// definitions (a diagnostic of the rule's kind must then be located in one of them); empty = no such claim
     pub fault_files: Vec<usize>,
+    /// `--replay`: the file-system layout of the CLI leg the failure was found with
+    pub cli_layout: Option<usize>,
 }
 
 impl Project {
@@ -78,6 +80,7 @@ impl Project {
                 .map(|a| a.iter().map(|l| Label { rule: l["rule"].as_str().unwrap_or("").into(), class: l["class"].as_str().unwrap_or("").into(), mutation: l["mutation"].as_str().unwrap_or("").into() }).collect())
                 .unwrap_or_default(),
             fault_files: v["fault_files"].as_array().map(|a| a.iter().filter_map(|x| x.as_u64().map(|n| n as usize)).collect()).unwrap_or_default(),
+            cli_layout: v["cli_layout"].as_u64().map(|n| n as usize),
         })
     }
     pub fn size(&self) -> usize {
@@ -160,21 +163,163 @@ pub struct CliOut {
     pub malformed: Option<String>,
 }
 
-/// write the project under `<scratch>/cli-project` (schema files under `schema/`, operation files under `ops/<path>`,
-/// `graphql.config.yaml`) and run `check`
-pub fn run_project_cli(cli: &str, scratch: &str, p: &Project) -> CliOut {
+/// file-system layouts of the CLI leg (all inside the scratch directory)
+pub const CLI_LAYOUTS: [&str; 9] = [
+    "plain",               // documents: ops/**/*.graphql
+    "explicit-globs",      // one glob per directory, with `./` and `/./` components
+    "dir-symlink-sibling", // one directory of the documents is a symbolic link to a sibling directory of `ops`
+    "dir-symlink-outside", // … to a directory outside the project directory
+    "dir-symlink-nested",  // … to a directory stored below `ops` itself
+    "file-symlink",        // one operation file is a symbolic link to a file stored elsewhere
+    "dir-alias",           // a directory (whose files import nothing) is matched twice: itself and through a link to it
+    "duplicate-globs",     // `**`, one glob per directory and a literal file path: every file is matched several times
+    "dotdot-globs",        // globs with `..` components (C04 only: known finding, see known-findings.txt)
+];
+
+/// the family a layout belongs to (part of the signature)
+pub fn layout_family(l: usize) -> &'static str {
+    match CLI_LAYOUTS[l % CLI_LAYOUTS.len()] {
+        "plain" => "plain",
+        "explicit-globs" => "explicit-globs",
+        "duplicate-globs" => "duplicate-globs",
+        "dotdot-globs" => "dotdot-globs",
+        _ => "symlink",
+    }
+}
+
+fn dir_of(path: &str) -> String {
+    match path.rfind('/') {
+        Some(i) => path[..i].to_string(),
+        None => String::new(),
+    }
+}
+
+/// write the project under `<scratch>/cli-project` (schema files under `schema/`, operation files under `ops/<path>` —
+/// or behind a symbolic link, see `CLI_LAYOUTS` —, `graphql.config.yaml`) and run `check`; returns the layout used
+pub fn run_project_cli(cli: &str, scratch: &str, p: &Project, layout: usize) -> (CliOut, &'static str) {
     let dir = nvh::cli::fresh_dir(scratch, "cli-project");
+    let shared = nvh::cli::fresh_dir(scratch, "cli-project-shared");
     let mut pr = nvh::cli::Project::default();
     for (i, t) in p.sdl.iter().enumerate() {
         pr.add(&format!("schema/s{i}.graphql"), t);
     }
-    for f in &p.files {
-        pr.add(&format!("ops{}", f.path), &f.text);
+    let mut dirs: Vec<String> = p.files.iter().map(|f| dir_of(&f.path)).collect();
+    dirs.sort();
+    dirs.dedup();
+    let linkable: Vec<String> = dirs.iter().filter(|d| !d.is_empty()).cloned().collect();
+    let h = nvh::report::fnv(&p.files.iter().map(|f| f.text.as_str()).collect::<Vec<_>>().join("|")) as usize;
+    let mut name = CLI_LAYOUTS[layout % CLI_LAYOUTS.len()];
+    // what is needed for the layout may be missing: fall back to explicit globs
+    let imports_nothing = |d: &str| p.files.iter().filter(|f| dir_of(&f.path) == d).all(|f| !f.text.contains("#import"));
+    let alias_dir: Option<String> = linkable.iter().find(|d| imports_nothing(d) && !linkable.iter().any(|e| e.starts_with(&format!("{d}/")))).cloned();
+    if (name.starts_with("dir-symlink") && linkable.is_empty()) || (name == "dir-alias" && alias_dir.is_none()) {
+        name = "explicit-globs";
     }
-    pr.add("graphql.config.yaml", "schema: \"schema/**/*.graphql\"\ndocuments: \"ops/**/*.graphql\"\n");
+    // (link location relative to the project directory, link target relative to the link's directory)
+    let mut links: Vec<(String, String)> = vec![];
+    let up = |from_dir: &str| "../".repeat(from_dir.split('/').filter(|s| !s.is_empty()).count());
+    let mut globs: Vec<String> = vec![];
+    let per_dir = |dots: bool| -> Vec<String> {
+        dirs.iter()
+            .enumerate()
+            .map(|(i, d)| match (dots, (h >> i) & 3) {
+                (true, 1) => format!("./ops{d}/*.graphql"),
+                (true, 2) => format!("ops{d}/./*.graphql"),
+                (true, 3) => format!("./ops/.{d}/*.graphql"),
+                _ => format!("ops{d}/*.graphql"),
+            })
+            .collect()
+    };
+    match name {
+        "plain" => {
+            for f in &p.files {
+                pr.add(&format!("ops{}", f.path), &f.text);
+            }
+            globs.push("ops/**/*.graphql".into());
+        }
+        "explicit-globs" | "duplicate-globs" | "dotdot-globs" => {
+            for f in &p.files {
+                pr.add(&format!("ops{}", f.path), &f.text);
+            }
+            if name == "dotdot-globs" {
+                globs = dirs.iter().map(|d| format!("ops/../ops{d}/*.graphql")).collect();
+            } else {
+                globs = per_dir(true);
+                if name == "duplicate-globs" {
+                    globs.push("ops/**/*.graphql".into());
+                    globs.push(format!("ops{}", p.files[h % p.files.len()].path));
+                    globs.extend(per_dir(false));
+                }
+            }
+        }
+        "dir-symlink-sibling" | "dir-symlink-outside" | "dir-symlink-nested" => {
+            let d = linkable[h % linkable.len()].clone();
+            // where the files of `d` (and of the directories below it) really are, relative to the project directory
+            let store = match name {
+                "dir-symlink-sibling" => "linked/d0".to_string(),
+                "dir-symlink-outside" => "../cli-project-shared/d0".to_string(),
+                _ => "ops/_store/d0".to_string(),
+            };
+            for f in &p.files {
+                if f.path.starts_with(&format!("{d}/")) {
+                    pr.add(&format!("{store}{}", &f.path[d.len()..]), &f.text);
+                } else {
+                    pr.add(&format!("ops{}", f.path), &f.text);
+                }
+            }
+            let parent = dir_of(&d);
+            links.push((format!("ops{d}"), format!("{}{store}", up(&format!("ops{parent}")))));
+            globs = per_dir(false);
+        }
+        "file-symlink" => {
+            let k = h % p.files.len();
+            for (i, f) in p.files.iter().enumerate() {
+                if i == k {
+                    pr.add("store/linked-file.graphql", &f.text);
+                    links.push((format!("ops{}", f.path), format!("{}store/linked-file.graphql", up(&format!("ops{}", dir_of(&f.path))))));
+                } else {
+                    pr.add(&format!("ops{}", f.path), &f.text);
+                }
+            }
+            globs = per_dir(false);
+            if h & 1 == 1 {
+                globs = vec!["ops/**/*.graphql".into()];
+            }
+        }
+        _ => {
+            // dir-alias
+            let d = alias_dir.clone().unwrap();
+            for f in &p.files {
+                pr.add(&format!("ops{}", f.path), &f.text);
+            }
+            let parent = dir_of(&d);
+            let leaf = &d[parent.len() + 1..];
+            links.push((format!("ops{parent}/zz_alias"), leaf.to_string()));
+            globs = per_dir(false);
+            globs.push(format!("ops{parent}/zz_alias/*.graphql"));
+        }
+    }
+    let docs: String = globs.iter().map(|g| format!("  - \"{g}\"\n")).collect();
+    pr.add("graphql.config.yaml", &format!("schema: \"schema/**/*.graphql\"\ndocuments:\n{docs}"));
     pr.write(&dir);
-    let run = nvh::cli::run_cli(cli, &dir, &["check", "--output-format", "json"], &[], std::time::Duration::from_secs(30));
+    for (at, target) in &links {
+        let full = dir.join(at);
+        if let Some(parent) = full.parent() {
+            let _ = std::fs::create_dir_all(parent);
+        }
+        // (scratch directory only)
+        if std::os::unix::fs::symlink(target, &full).is_err() {
+            name = "plain";
+        }
+    }
+    let out = run_cli_check(cli, &dir);
     let _ = std::fs::remove_dir_all(&dir);
+    let _ = std::fs::remove_dir_all(&shared);
+    (out, name)
+}
+
+fn run_cli_check(cli: &str, dir: &Path) -> CliOut {
+    let run = nvh::cli::run_cli(cli, dir, &["check", "--output-format", "json"], &[], std::time::Duration::from_secs(30));
     let mut out = CliOut { code: run.code, timed_out: run.timed_out, errors: vec![], malformed: None };
     // (a log line may precede the JSON document)
     let json_part = run.stdout.find('{').map(|i| &run.stdout[i..]).unwrap_or("");
@@ -603,7 +748,7 @@ pub fn render_plan(rng: &mut Rng, sdl: &[String], plan: &Plan, noisy: bool) -> P
         let text = if noisy { render_doc(&mut d, Style::noisy(), rng.fork()).0 } else { render_doc(&mut d, Style::canonical(), Rng::new(0)).0 };
         out.push(PFile { path: f.path.clone(), text });
     }
-    Project { sdl: sdl.to_vec(), files: out, origin: "import".into(), features: plan.feats.iter().cloned().collect(), labels: vec![], fault_files: vec![] }
+    Project { sdl: sdl.to_vec(), files: out, origin: "import".into(), features: plan.feats.iter().cloned().collect(), labels: vec![], fault_files: vec![], cli_layout: None }
 }
 
 // ------------------------------------------------------------------------------------------------
@@ -773,6 +918,7 @@ pub fn corpus(s1: &str) -> Vec<Project> {
         features: vec![format!("import-corpus:{name}")],
         labels: vec![],
         fault_files: vec![],
+        cli_layout: None,
     };
     vec![
         p(
@@ -816,6 +962,7 @@ pub fn corpus_c03(s1: &str) -> Vec<Project> {
         features: vec![format!("import-corpus:{name}")],
         labels: vec![Label { rule: rule.into(), class: class.into(), mutation: mutation.into() }],
         fault_files: fault_files.to_vec(),
+        cli_layout: None,
     };
     vec![
         p(
